@@ -162,10 +162,13 @@ impl HttpClient {
 
         let client = client_builder.build();
 
-        let host = http_settings
-            .hostname
-            .map(S::into)
-            .unwrap_or_else(|| address.ip().to_string());
+        // An IPv6 address has to be in brackets inside a URL
+        let host = http_settings.hostname.map(S::into).unwrap_or_else(|| {
+            match address {
+                SocketAddr::V4(address) => address.ip().to_string(),
+                SocketAddr::V6(address) => format!("[{}]", address.ip()),
+            }
+        });
 
         Ok(Self {
             client,
